@@ -2,6 +2,7 @@ package pshake
 
 import (
 	"fmt"
+	"strconv"
 
 	utils "github.com/alibaba/RedisShake/redis-shake/common"
 	conf "github.com/alibaba/RedisShake/redis-shake/configure"
@@ -12,6 +13,13 @@ import (
 	"verif/harness/lib/refcrc"
 	"verif/harness/lib/wk"
 )
+
+func sub15(a, b int) int {
+	if a < b {
+		return 0
+	}
+	return a - b
+}
 
 func init() { wk.Register("C15", c15) }
 
@@ -161,6 +169,32 @@ func c15(c *wk.Ctx) {
 		ranges = append(ranges, rg{a, b})
 	}
 	ranges = append(ranges, rg{0, 16383}, rg{0, 5460}, rg{5461, 10922}, rg{10923, 16383})
+	// one process answers for many shards, one call after the other: families of ranges that a lossy memo key would
+	// confuse - the same decimal digits split at different places ([1,112] / [11,12]), the same left or right
+	// boundary, the same width
+	related := 0
+	for f := 0; f < c.N(150, 1500); f++ {
+		digits := strconv.Itoa(rng.Range(100, 999999))
+		for cut := 1; cut < len(digits); cut++ {
+			l, _ := strconv.Atoi(digits[:cut])
+			rr, _ := strconv.Atoi(digits[cut:])
+			if digits[cut] != '0' && l <= rr && rr <= 16383 {
+				ranges = append(ranges, rg{l, rr})
+				related++
+			}
+		}
+	}
+	for f := 0; f < c.N(20, 200); f++ {
+		a, w := rng.Intn(16000), rng.Range(40, 300)
+		for k := 0; k < 4; k++ {
+			ranges = append(ranges, rg{a, a + rng.Range(40, 383)})                 // same left
+			ranges = append(ranges, rg{sub15(a+383, rng.Range(40, 383)), a + 383}) // same right
+			b := rng.Intn(16000)
+			ranges = append(ranges, rg{b, b + w}) // same width
+			related += 3
+		}
+	}
+	r.Count("chose_ranges_related_by_digits_or_boundary", int64(related))
 	wk.Parallel(len(ranges), 16, func(i int) {
 		g := ranges[i]
 		name := utils.ChoseSlotInRange(utils.CheckpointKey, g.l, g.r)
